@@ -13,8 +13,27 @@ from .common import MOTL_COLS, zr
 XYZ = ("x", "y", "z")
 
 
+class _Vals(frames._Generic):
+    """an array of feature values known only by how it was made (np.unique: sorted distinct values; pd.unique: distinct values in order of first
+    appearance; isin / selection by a mask); iterating it binds an arbitrary one of its values"""
+
+    def __init__(self, kind, args):
+        self.kind, self.args = kind, args
+
+    def __getitem__(self, k):
+        return _Vals("selected", (self, k))
+
+    def __generic_for__(self, interp, st, env):
+        return FeatureKeys.__generic_for__(self, interp, st, env)
+
+
 class FeatureKeys(frames._Generic):
     """np.intersect1d(np.unique(a[feature]), np.unique(b[feature])): iterating it binds f to a value that occurs in both lists"""
+    made = []
+
+    def __init__(self, a=None, b=None):
+        self.args = (a, b)
+        FeatureKeys.made.append(self)
 
     def __generic_for__(self, interp, st, env):
         f = SV(z3.Real("feature_value"))
@@ -158,10 +177,15 @@ class NPX:
         return getattr(self._b, k)
 
     def unique(self, x, **k):
-        return ("unique", x)
+        return _Vals("np.unique", x)
+
+    def isin(self, a, b, **k):
+        if isinstance(a, _Vals) or isinstance(b, _Vals):
+            return _Vals("isin", (a, b))
+        return self._b.isin(a, b, **k)
 
     def intersect1d(self, a, b, **k):
-        return FeatureKeys()
+        return FeatureKeys(a, b)
 
     def vstack(self, x):
         return Stacked(x) if isinstance(x, kernels.SiteList) else self._b.vstack(x)
@@ -190,11 +214,14 @@ def _interp(feature, holder):
             return s
 
     class _DfStub:
+        asked = None
+
         @property
         def loc(self):
             return self
 
         def __getitem__(self, k):
+            self.asked = k
             return self
 
         @property
@@ -212,8 +239,23 @@ def _interp(feature, holder):
         return Concat(("concatenated_rotations", rs))
 
     Srot = type("Srot", (), {"from_euler": staticmethod(lambda seq, angles=None, degrees=False: rotm.Rot.from_euler(seq, angles, degrees)), "concatenate": staticmethod(concat)})
-    it.globals.update({"np": NPX(g["np"]), "sn": SN, "geom": GeomStub, "srot": Srot, "cryomotl": None})
+    class PdX:
+        """pd.unique keeps the order of first appearance (unlike np.unique, which sorts)"""
+        @staticmethod
+        def unique(x, **k):
+            return _Vals("pd.unique", x)
+
+    it.globals.update({"np": NPX(g["np"]), "sn": SN, "geom": GeomStub, "srot": Srot, "cryomotl": None, "pd": PdX})
     return it, MotlModel
+
+
+def _same_tomogram_order(inp):
+    """get_nn_stats stacks the blocks of get_nn_distances and get_nn_rotations row by row: both must visit the tomograms in the same order, namely the
+    sorted values shared by the two lists  np.intersect1d(np.unique(a[feature]), np.unique(b[feature]))"""
+    fk = FeatureKeys.made[-1] if FeatureKeys.made else None
+    ok = (fk is not None and all(isinstance(x, _Vals) and x.kind == "np.unique" for x in fk.args) and fk.args[0].args is inp["a"].df and fk.args[1].args is inp["b"].df
+          and inp["a"].df.asked == (slice(None), "tomo_id") and inp["b"].df.asked == (slice(None), "tomo_id"))
+    return ("tomograms_visited_in_the_sorted_order_of_the_values_shared_by_both_lists", z3.BoolVal(bool(ok)))
 
 
 class NNDistances(Contract):
@@ -225,18 +267,19 @@ class NNDistances(Contract):
         holder = {}
         it, MotlModel = _interp("tomo_id", holder)
         KNN.made = []
+        FeatureKeys.made.clear()
         a, b = MotlModel("a_"), MotlModel("b_")
         p = SV(z3.Real("pixel_size"))
         k = SV(z3.Int("nn_number"))
         cx.assume(z3.And(p.t > 0, k.t >= 1))
         f = it.function("get_nn_distances")
-        return (lambda: f(a, b, pixel_size=p, nn_number=k, feature="tomo_id", rotation_type="angular_distance")), {"holder": holder, "p": p, "k": k}
+        return (lambda: f(a, b, pixel_size=p, nn_number=k, feature="tomo_id", rotation_type="angular_distance")), {"holder": holder, "p": p, "k": k, "a": a, "b": b}
 
     def post(self, cx, cfg, inp, res):
         names = ["centered_coord", "rotated_coord", "nn_dist", "angular_distances", "subtomo_idx", "subtomo_idx_nn"]
         if isinstance(res, tuple) and len(res) == 6 and all(isinstance(x, tuple) and x[0] == "zeros" and (x[1][0] if isinstance(x[1], tuple) else x[1]) == 0 for x in res):
             return [("empty_arrays_when_nothing_was_collected", z3.BoolVal(True))]
-        cl = [("returns_six_stacked_lists", z3.BoolVal(isinstance(res, tuple) and len(res) == 6 and all(isinstance(x, Stacked) for x in res)))]
+        cl = [("returns_six_stacked_lists", z3.BoolVal(isinstance(res, tuple) and len(res) == 6 and all(isinstance(x, Stacked) for x in res))), _same_tomogram_order(inp)]
         if not (isinstance(res, tuple) and len(res) == 6 and all(isinstance(x, Stacked) for x in res)):
             return cl
         subs = inp["holder"].get("subs", {})
@@ -303,17 +346,18 @@ class NNRotations(Contract):
         holder = {}
         it, MotlModel = _interp("tomo_id", holder)
         KNN.made = []
+        FeatureKeys.made.clear()
         a, b = MotlModel("a_"), MotlModel("b_")
         k = SV(z3.Int("nn_number"))
         cx.assume(k.t >= 1)
         f = it.function("get_nn_rotations")
-        return (lambda: f(a, b, nn_number=k, feature="tomo_id")), {"holder": holder, "k": k}
+        return (lambda: f(a, b, nn_number=k, feature="tomo_id")), {"holder": holder, "k": k, "a": a, "b": b}
 
     def post(self, cx, cfg, inp, res):
         if isinstance(res, tuple) and len(res) == 2 and all(isinstance(x, tuple) and x[0] == "zeros" for x in res):
             return [("empty_arrays_when_nothing_was_collected", z3.BoolVal(True))]
         ok = isinstance(res, tuple) and len(res) == 2 and isinstance(res[0], tuple) and res[0][0] == "points_on_sphere"
-        cl = [("result_built_from_concatenated_relative_rotations", z3.BoolVal(bool(ok)))]
+        cl = [("result_built_from_concatenated_relative_rotations", z3.BoolVal(bool(ok))), _same_tomogram_order(inp)]
         if not ok:
             return cl
         conc = res[0][1]
@@ -340,7 +384,7 @@ CONTRACTS = [NNDistances, NNRotations]
 LEVEL = "proof"
 EXPLANATION = ("For the generic (tomogram, query particle, neighbour rank) the values appended by get_nn_distances / get_nn_rotations are proved to be: offset = pixel x (neighbour - query) on complete positions, "
                "distance = pixel x Euclidean distance, particle-frame offset = inverse orientation applied to the offset, angular distance of the pair (callee contract from C06), relative orientation "
-               "R_a^-1 R_b, the two subtomogram numbers, same tomogram only, rank < min(k, size). 'The k closest, ascending' is the assumed KD-tree contract, compared with brute force in the bounded "
+               "R_a^-1 R_b, the two subtomogram numbers, same tomogram only, rank < min(k, size); both functions visit the tomograms in the sorted order of the values shared by the two lists (np.intersect1d of np.unique), which is what lets get_nn_stats stack their blocks row by row. 'The k closest, ascending' is the assumed KD-tree contract, compared with brute force in the bounded "
                "stand-in; invariance under rigid motion is a lemma over the postconditions plus the bounded check.")
 ASSUMPTIONS = ["sklearn KDTree.query contract (k nearest, ascending, distance of the reported neighbour); get_motl_subset contract (C08); geom.compare_rotations contract (C06); scipy Rotation contract",
                "assembly of the table in get_nn_stats (hstack/reshape) is checked in the bounded stand-in only"]
